@@ -126,6 +126,26 @@ class Decider:
         self.sem.approx = approx
         return self.sem._mem_tuple(tup, (), ())
 
+    def generic_tuple_formula(self, tup, approx):
+        """membership in the tuple type `tup` with its type variables read as "any value": the
+        values that can carry this tag under some instantiation"""
+        self.sem.approx = approx
+        self.sem.var_any = True
+        try:
+            return self.sem._mem_tuple(tup, (), ())
+        finally:
+            self.sem.var_any = False
+
+    def tuple_generic(self, tup):
+        k = ("tupgeneric", tup)
+        if k not in self._supported:
+            try:
+                self.generic_tuple_formula(tup, "under")
+                self._supported[k] = True
+            except (Unsupported, RecursionError):
+                self._supported[k] = False
+        return self._supported[k]
+
     def tuple_closed(self, tup):
         k = ("tupclosed", tup)
         if k not in self._supported:
